@@ -119,6 +119,37 @@ Proof.
   intros x y Hx Hy E. eapply NoDup_map_inj_in; eauto.
 Qed.
 
+(* ---- identifiers are pairwise distinct, and validity is PER PREFIX ----
+   The validity test of the source rejects names starting with the sanitizer's own prefix, so
+   (sanitized_names_NoDup) distinct wire names always get distinct identifiers, in the module,
+   the testbench and the VCD -- whatever the user called the wires ('_vcd_tmp_0' included). *)
+Lemma src_valid_rejects_prefix : forall p s, src_verilog_valid_p p s = true -> has_prefix p s = false.
+Proof.
+  intros p s H. destruct (has_prefix p s) eqn:E; [exfalso|reflexivity].
+  unfold src_verilog_valid_p in H. rewrite E in H. cbn [negb] in H.
+  repeat (rewrite ?andb_false_r in H; cbn [andb] in H). discriminate H.
+Qed.
+
+Lemma present_sorted_perm : forall l, Permutation (present_sorted l) l.
+Proof. intro l. unfold present_sorted. apply sort_by_perm. Qed.
+
+Theorem src_identifiers_distinct : forall names, NoDup names ->
+  NoDup (map (varname (sanitize_all src_valid_verilog src_prefix_verilog (src_present_verilog names))) names)
+  /\ NoDup (map (varname (sanitize_all src_valid_testbench src_prefix_testbench (src_present_testbench names))) names)
+  /\ NoDup (map (varname (sanitize_all src_valid_vcd src_prefix_vcd (src_present_vcd names))) names).
+Proof.
+  intros names ND. repeat split;
+    apply sanitized_names_NoDup; auto using present_sorted_perm; intro s; apply src_valid_rejects_prefix.
+Qed.
+
+(* validity depends on the sanitizer instance: the same name is a legal identifier for the
+   module exporter and must be renamed by the VCD exporter (and vice versa), so an answer
+   remembered across instances would be wrong for one of them *)
+Theorem src_validity_is_per_prefix : exists s s',
+  src_valid_verilog s = true /\ src_valid_vcd s = false /\
+  src_valid_verilog s' = false /\ src_valid_vcd s' = true.
+Proof. exists (nm "_vcd_tmp_0"), (nm "_ver_out_tmp_0"). vm_compute. repeat split; reflexivity. Qed.
+
 (* print_trace: the trace dict has one entry per name *)
 Theorem src_trace_text_perm_invariant : forall render_line fmt (items items' : list titem),
   Permutation items items' -> NoDup (map fst items) ->
